@@ -1,2 +1,57 @@
--- driver stub (replaced when the model for C02 is built)
-def main : IO Unit := pure ()
+import PyTough.Model.Fixed
+import PyTough.Gen.Specs
+import PyTough.Py.Proto
+open Py Model
+
+/-- value tokens: n | i<int> | r<num>/<den> | z | inf0 | inf1 | nan | s<hex> -/
+def parseVal (t : String) : Val :=
+  let cs := t.toList
+  match cs with
+  | ['n'] => .none
+  | ['z'] => .negZero
+  | ['n','a','n'] => .nan
+  | ['i','n','f','0'] => .inf false
+  | ['i','n','f','1'] => .inf true
+  | 'i' :: r => .int (String.ofList r).toInt!
+  | 's' :: r => .str (ofHexAux r)
+  | 'r' :: r =>
+    match (String.ofList r).splitOn "/" with
+    | [a, b] => .real (mkRat a.toInt! b.toNat!)
+    | _ => .none
+  | _ => .none
+
+def showPVal : PVal → String
+  | .none => "n"
+  | .int i => s!"i{i}"
+  | .flt (.fin neg m e) => s!"f{if neg then 1 else 0},{m},{e}"
+  | .flt (.inf neg) => s!"inf{if neg then 1 else 0}"
+  | .flt .nan => "nan"
+  | .str s => "s" ++ toHex s
+
+def sectionSpecs (t s : String) : Except Exc (List FieldSpec) :=
+  match Gen.Specs.findTable t with
+  | none => .error .keyError
+  | some tab => match tab.find s with
+    | none => .error .keyError
+    | some sec => parseSpecs (sec.specs.map String.toList)
+
+def handle : List String → String
+  | "wv" :: t :: s :: vals =>
+    showExc (fun l => "s" ++ toHex l) (do
+      let fs ← sectionSpecs t s
+      writeValues fs (vals.map parseVal))
+  | ["ps", t, s, rf, h] =>
+    showExc (fun (l : List PVal) => " ".intercalate (l.map showPVal)) (do
+      let fs ← sectionSpecs t s
+      parseString (if rf = "f" then .fortran else .default) fs (ofHex h))
+  | ["ps", t, s, rf] =>
+    showExc (fun (l : List PVal) => " ".intercalate (l.map showPVal)) (do
+      let fs ← sectionSpecs t s
+      parseString (if rf = "f" then .fortran else .default) fs [])
+  | ["spec", t, s] =>
+    showExc (fun (l : List ((Nat × Nat) × Char)) => " ".intercalate (l.map fun ((a, b), c) => s!"{a},{b},{c}")) (do
+      let fs ← sectionSpecs t s
+      pure (lineSpec fs))
+  | _ => "bad-op"
+
+def main : IO Unit := serve handle
